@@ -60,21 +60,25 @@ def gen_comp(rng, name="comp", step=60):
     bn = 0
     prev = None
     master_mode = rng.random() < 0.3
-    minor = 20
+    # the release line of the main line: 10.20, or 0.9 (a major version of zero)
+    major, minor = rng.choice([(10, 20), (10, 20), (0, 9)])
+    if master_mode:
+        major, minor = 10, 20
+    rel = "%d_%d" % (major, minor)
     for cid in range(1, m + 1):
         msg = "BUG-7 c%d" % cid if rng.random() < 0.5 else "misc"
         if master_mode and cid > 1 and rng.random() < 0.3:
             minor += 1
-        files = {"VERSION": "10.%d" % minor} if master_mode else {}
+        files = {"VERSION": "%d.%d" % (major, minor)} if master_mode else {}
         commits[cid] = mg.Commit(name, cid, [prev] if prev else [], msg, base + cid * step, files)
         prev = commits[cid]
         if rng.random() < 0.6:
             for _ in range(2 if rng.random() < 0.15 else 1):
                 # (sometimes the same commit was built once more: second build tag, another number)
                 bn += 1
-                tags[f"build_{bn}_master_success" if master_mode else f"build_{bn}_release_10_20_success"] = cid
-                versions.append((cid, (10, minor, bn)))
-    heads = {"origin/master" if master_mode else "origin/release/10.20": m}
+                tags[f"build_{bn}_master_success" if master_mode else f"build_{bn}_release_{rel}_success"] = cid
+                versions.append((cid, (major, minor, bn)))
+    heads = {"origin/master" if master_mode else "origin/release/%d.%d" % (major, minor if not master_mode else 20): m}
     if rng.random() < 0.5:
         f = rng.randint(1, m)
         prev = commits[f]
@@ -230,7 +234,7 @@ def judge_component(ctx, data, cname, comp, par, versions, pins, case):
         m = re.match(r"build_(\d+)_release_(\d+)_(\d+)_success", tname)
         ptags.setdefault(cid, set()).add("%s.%s.%s" % (m.group(2), m.group(3), m.group(1)))
     prb = {br.branch_name: br for br in prg.branches}
-    main_head = comp.branches.get("origin/master", comp.branches.get("origin/release/10.20"))
+    main_head = next(h for b, h in comp.branches.items() if b != "origin/release/10.30")
     main_line = mg.ancestors(comp.commits[main_head])
     # when the main line is master, a release branch forked from it sorts lower and OWNS the part of the main
     # line below its fork point: the report lists those builds under the release branch and lists their
